@@ -257,12 +257,14 @@ structure FdtRecv (σ : Type) where
   hasMeta : Bool
   /-- `inner.data.len()`: every `FdtWriter::write` appends, nothing ever bounds or clears it -/
   bytes : Nat
+  /-- `first_fti`: FEC OTI and transfer length announced by the first packet pushed to this instance -/
+  fti : Option Fti
 
 variable {σ : Type}
 
 def FdtRecv.new (I : ObjIface σ) (fdtId : Nat) (check : Bool) : FdtRecv σ :=
   { fdtId, obj := some (I.new 0 (1024 * 1024)), st := .receiving, expires := none, inst := none,
-    utf8 := false, offset := none, late := true, check, hasMeta := false, bytes := 0 }
+    utf8 := false, offset := none, late := true, check, hasMeta := false, bytes := 0, fti := none }
 
 /-- the calls the inner object makes on its `FdtWriter` change `inner` -/
 def FdtRecv.applyWEv (ans : FdtAns) (f : FdtRecv σ) : WEv → FdtRecv σ
@@ -286,7 +288,17 @@ def FdtRecv.observeSct (f : FdtRecv σ) (sct : Option Int) (now : Int) : FdtRecv
     else { f with late := false, offset := some (res - now).toNat }
   | none => f
 
-/-- `FdtReceiver::push` -/
+/-- head of `FdtReceiver::push`: `if self.first_fti.is_none() { self.first_fti = pkt_fti(pkt) }` -/
+def FdtRecv.noteFti (f : FdtRecv σ) (v : Option Fti) : FdtRecv σ :=
+  if f.fti.isNone then { f with fti := v } else f
+
+/-- `FdtReceiver::fti_conflicts`: the packet announces another FEC OTI / transfer length -/
+def FdtRecv.ftiConflicts (f : FdtRecv σ) (p : Pkt) : Bool :=
+  match f.fti, p.fti with
+  | some a, some b => a != b
+  | _, _ => false
+
+/-- `FdtReceiver::push` (after the `first_fti` bookkeeping, see `fdtEntry`) -/
 def FdtRecv.push (I : ObjIface σ) (f : FdtRecv σ) (p : Pkt) (now : Int) (ans : FdtAns) : FdtRecv σ :=
   let f := f.observeSct p.sct now
   match f.obj with
@@ -603,20 +615,35 @@ def fdtCompleted (I : ObjIface σ) (s : State σ) (id : Nat) : Rs (State σ × R
       let s := if s.fdtCurrent.length > 10 then { s with fdtCurrent := s.fdtCurrent.dropLast } else s
       .ok (s, .ok, e0 ++ e1 ++ e2)
 
-/-- `self.fdt_receivers.entry(id).or_insert(FdtReceiver::new(..))` -/
-def fdtEntry (I : ObjIface σ) (s : State σ) (id : Nat) : State σ × FdtRecv σ :=
+/-- `self.fdt_receivers.entry(id).or_insert(FdtReceiver::new(..))`; the instance handed on is the
+    registered one with the `first_fti` bookkeeping of `FdtReceiver::push` applied (it is stored back
+    only if the push happens) -/
+def fdtEntry (I : ObjIface σ) (s : State σ) (id : Nat) (p : Pkt) : State σ × FdtRecv σ :=
   match alookup id s.fdtReceivers with
-  | some f => (s, f)
+  | some f => (s, f.noteFti p.fti)
   | none =>
     let f := FdtRecv.new I id s.cfg.expCheck
-    ({ s with fdtReceivers := ainsert id f s.fdtReceivers }, f)
+    ({ s with fdtReceivers := ainsert id f s.fdtReceivers }, f.noteFti p.fti)
+
+/-- head of `push_fdt_obj` (repair 282dd8d): an instance under reception whose OTI / transfer length
+    the packet contradicts is dropped, the packet then starts a new instance -/
+def dropConflict (s : State σ) (p : Pkt) : State σ :=
+  match p.fdtId with
+  | none => s
+  | some id =>
+    match alookup id s.fdtReceivers with
+    | none => s
+    | some f =>
+      if f.st = .receiving ∧ f.ftiConflicts p = true then { s with fdtReceivers := aerase id s.fdtReceivers }
+      else s
 
 /-- `match fdt_receiver.state() { .. }` of `push_fdt_obj` and what follows -/
 def fdtDispatch (I : ObjIface σ) (s : State σ) (id : Nat) (f : FdtRecv σ) (now : Int) :
     Rs (State σ × Res × List Ev) :=
   match f.st with
   | .receiving => .ok (s, .ok, [])
-  | .error => .ok (s, .err, [])
+  -- repair 9bde117: a failed / already expired instance is not kept
+  | .error => .ok ({ s with fdtReceivers := aerase id s.fdtReceivers }, .err, [])
   | .expired =>
     -- only for the log line: `get_server_time(now)` and two chrono conversions
     match f.serverTime now with
@@ -627,11 +654,11 @@ def fdtDispatch (I : ObjIface σ) (s : State σ) (id : Nat) (f : FdtRecv σ) (no
       | .ok _ =>
         match chronoConv t with
         | .error w => .error w
-        | .ok _ => .ok (s, .ok, [])
+        | .ok _ => .ok ({ s with fdtReceivers := aerase id s.fdtReceivers }, .ok, [])
   | .complete => fdtCompleted I s id
 
-/-- `push_fdt_obj` -/
-def pushFdtObj (I : ObjIface σ) (s : State σ) (p : Pkt) (now : Int) (ans : FdtAns) :
+/-- `push_fdt_obj` after the FTI-conflict test -/
+def pushFdtObj' (I : ObjIface σ) (s : State σ) (p : Pkt) (now : Int) (ans : FdtAns) :
     Rs (State σ × Res × List Ev) :=
   match p.fdtId with
   | none =>
@@ -640,12 +667,17 @@ def pushFdtObj (I : ObjIface σ) (s : State σ) (p : Pkt) (now : Int) (ans : Fdt
     .ok (s, .err, [])
   | some id =>
     if s.cfg.receiveOnce ∧ s.fdtCurrent.any (fun f => f.fdtId = id) then .ok (s, .ok, []) else
-    let sf := fdtEntry I s id
+    let sf := fdtEntry I s id p
     if sf.2.st ≠ .receiving then .ok (sf.1, .ok, []) else
     let f := sf.2.push I p now ans
     match (if f.st = .complete then f.updateExpired now else .ok f) with
     | .error w => .error w
     | .ok f => fdtDispatch I { sf.1 with fdtReceivers := ainsert id f sf.1.fdtReceivers } id f now
+
+/-- `push_fdt_obj` -/
+def pushFdtObj (I : ObjIface σ) (s : State σ) (p : Pkt) (now : Int) (ans : FdtAns) :
+    Rs (State σ × Res × List Ev) :=
+  pushFdtObj' I (dropConflict s p) p now ans
 
 /-- `Receiver::push` -/
 def push (I : ObjIface σ) (s : State σ) (p : Pkt) (now : Int) (ans : FdtAns) :
